@@ -75,6 +75,11 @@ pub struct Collection {
     pub samples: Vec<Sample>,
     /// construction notes (which structural features the generator aimed at)
     pub aims: Vec<String>,
+    /// per-sample-file mode with PanSN headers only: the contigs of sample `.0` from index `.1` on
+    /// are written to an extra input file that comes after all other files, so the sample is
+    /// revisited after other samples were added (sample order = first seen, contig order = input order)
+    #[serde(default)]
+    pub revisit: Option<(u16, u16)>,
 }
 
 impl Collection {
@@ -157,6 +162,7 @@ pub struct Recipe {
     pub tiny_samples: u16,
     /// (sample, number of contigs, contig length, seed): extra short unrelated contigs
     pub swarm: Option<(u8, u16, u8, u64)>,
+    pub revisit: Option<(u8, u8)>,
 }
 
 // --------------------------------------------------------------- expansion --
@@ -553,7 +559,18 @@ pub fn expand(rec: &Recipe) -> Collection {
     if params.queue_capacity <= largest {
         params.queue_capacity = largest + 1;
     }
-    Collection { params, pres: rec.pres.clone(), pansn: rec.pansn, samples, aims }
+    let mut revisit = None;
+    if let Some((a, b)) = rec.revisit {
+        if rec.pansn && !params.single_file && samples.len() >= 2 {
+            let si = a as usize % (samples.len() - 1);
+            let n = samples[si].contigs.len();
+            if n >= 2 {
+                revisit = Some((si as u16, (1 + b as usize % (n - 1)) as u16));
+                aims.push("sample-revisited-in-a-later-file".into());
+            }
+        }
+    }
+    Collection { params, pres: rec.pres.clone(), pansn: rec.pansn, samples, aims, revisit }
 }
 
 // -------------------------------------------------------------- strategies --
@@ -675,8 +692,9 @@ pub fn recipe_strategy(cfg: GenCfg) -> impl Strategy<Value = Recipe> {
         names,
         tiny,
         swarm,
+        prop::option::weighted(0.3, (any::<u8>(), any::<u8>())),
     )
-        .prop_map(move |(mut params, pres, pansn, anc, samples, names, tiny_samples, swarm)| {
+        .prop_map(move |(mut params, pres, pansn, anc, samples, names, tiny_samples, swarm, revisit)| {
             if let Some(sf) = cfg.single_file {
                 params.single_file = sf;
             }
@@ -686,7 +704,7 @@ pub fn recipe_strategy(cfg: GenCfg) -> impl Strategy<Value = Recipe> {
                 params.segment_size = 200;
             }
             let pansn = pansn || params.single_file;
-            Recipe { params, pres, pansn, anc, samples, names, tiny_samples, swarm }
+            Recipe { params, pres, pansn, anc, samples, names, tiny_samples, swarm, revisit }
         })
 }
 
